@@ -177,7 +177,12 @@ class NoGroupCoordinator(BaseCoordinator):
 
     async def close(self):
         self._reset_committed_task.cancel()
-        await self._reset_committed_task
+        # The task may not have run a single step yet (close() right after
+        # the constructor): it then ends up cancelled instead of returning
+        try:
+            await self._reset_committed_task
+        except asyncio.CancelledError:
+            pass
         self._reset_committed_task = None
 
     def check_errors(self):
